@@ -30,10 +30,13 @@ BinForms == {"add", "sub", "mul", "idiv", "mod", "pow"}
 \* floating values q/4 around the conversion limits, reaching Integer contexts
 Quarters == UNION {{4 * x + r : r \in -8..8} : x \in {-32769, -32768, 0, 32767, 32768}}
 ConvForms == {"let", "cint", "idiv1", "mod", "and", "not", "hex"}
+\* Doubles a 1024th away from the limits: not representable as Singles
+Fine == UNION {{1024 * x + r : r \in {-1023, -1, 1, 1023}} : x \in {-32769, -32768, 32767, 32768}}
 
 Cases == [k : {"un"}, f : UnForms, a : UnRange]
          \cup [k : {"bin"}, f : BinForms, a : Grid, b : Grid]
          \cup [k : {"conv"}, f : ConvForms, q : Quarters]
+         \cup [k : {"fine"}, f : {"let", "cint", "idiv1", "and"}, q : Fine]
 
 ExprOf(cs) ==
   CASE cs.k = "un" ->
@@ -45,7 +48,7 @@ ExprOf(cs) ==
            [] cs.f = "negneg" -> Un("neg", [k |-> "par", a |-> Un("neg", VA)])
            [] cs.f = "subzero" -> Bin("sub", Lit(MkI(0)), VA))
     [] cs.k = "bin" -> Bin(cs.f, VA, VB)
-    [] cs.k = "conv" ->
+    [] cs.k \in {"conv", "fine"} ->
          (CASE cs.f = "let"  -> VF
            [] cs.f = "cint" -> Fn("CINT", <<VF>>)
            [] cs.f = "idiv1" -> Bin("idiv", VF, Lit(MkI(1)))
@@ -60,6 +63,7 @@ EnvOf(cs) ==
     [] cs.k = "bin" -> <<[l |-> "A", id |-> "A", sfx |-> "%", v |-> MkI(cs.a)],
                          [l |-> "B", id |-> "B", sfx |-> "%", v |-> MkI(cs.b)]>>
     [] cs.k = "conv" -> <<[l |-> "F", id |-> "F", sfx |-> "#", v |-> MkF("D", cs.q, 2)]>>
+    [] cs.k = "fine" -> <<[l |-> "F", id |-> "F", sfx |-> "#", v |-> MkF("D", cs.q, 10)]>>
 
 VarsOf(env) == [key \in {Key(env[i].l, env[i].id, env[i].sfx, <<>>) : i \in 1..Len(env)} |->
                   LET i == CHOOSE i \in 1..Len(env) : Key(env[i].l, env[i].id, env[i].sfx, <<>>) = key
@@ -70,6 +74,7 @@ St(env) == [vars |-> VarsOf(env), dims |-> [x \in {} |-> <<>>], deft |-> DeftIni
 \* "let"/"sub": the value is assigned to an Integer variable, then read back
 Expected(cs) ==
   IF cs.k = "conv" /\ cs.f = "let" THEN Assign("I", MkF("D", cs.q, 2))
+  ELSE IF cs.k = "fine" /\ cs.f = "let" THEN Assign("I", MkF("D", cs.q, 10))
   ELSE EvalTop(ExprOf(cs), St(EnvOf(cs))).v
 
 Init == c \in Cases
@@ -109,6 +114,8 @@ Checked ==
   \* conversions: floor, then range check
   /\ c.k = "conv" /\ c.f \in {"let", "cint", "idiv1", "and"} =>
        LET fl == c.q \div 4 IN IF InInt(fl) THEN x = MkI(fl) ELSE x = Err(EOverflow)
+  /\ c.k = "fine" =>
+       LET fl == c.q \div 1024 IN IF InInt(fl) THEN x = MkI(fl) ELSE x = Err(EOverflow)
 
 \* a case is non-trivial when it ends in an error, or touches a limit of the 16-bit range
 NonTrivial(cs) ==
@@ -117,8 +124,9 @@ NonTrivial(cs) ==
   \/ (x.t = "I" /\ (x.n <= -32767 \/ x.n >= 32766))
   \/ (cs.k \in {"un", "bin"} /\ cs.a \in {MinInt, MaxInt})
   \/ (cs.k = "bin" /\ cs.b \in {MinInt, MaxInt, 0, -1})
+  \/ cs.k = "fine"
 
 Emit == PrintT(ToJson([R |-> "expr", c |-> c, env |-> EnvOf(c), e |-> ExprOf(c),
-                       store |-> (c.k = "conv" /\ c.f = "let"), x |-> Expected(c),
+                       store |-> (c.k \in {"conv", "fine"} /\ c.f = "let"), x |-> Expected(c),
                        nt |-> NonTrivial(c)]))
 =============================================================================
